@@ -54,9 +54,19 @@ static int enabled(const struct op *o, const struct mstate *m) {
     }
 }
 
-/* ---- violations of one step are collected here */
-static char VKEY[160], VMSG[600]; static int VBAD;
-#define BADV(keyfmt, ...) do { if (!VBAD) { VBAD = 1; snprintf(VMSG, sizeof VMSG, __VA_ARGS__); snprintf(VKEY, sizeof VKEY, "%s", keyfmt); } } while (0)
+/* ---- violations of one step are collected here: the first one of each category (key up to the second colon), so
+ * that e.g. a leak is not masked by a status mismatch in the same call */
+#define MAXSTEPV 6
+static char VKEYS[MAXSTEPV][160], VMSGS[MAXSTEPV][600]; static int VBAD;
+#define VKEY VKEYS[0]
+#define VMSG VMSGS[0]
+static void badv_add(const char *key, const char *msg) {
+    const char *c2 = strchr(key, ':'); size_t cat = c2 ? (size_t)(c2 - key) : strlen(key);
+    for (int i = 0; i < VBAD; i++) if (!strncmp(VKEYS[i], key, cat) && VKEYS[i][cat] == ':') return;
+    if (VBAD >= MAXSTEPV) return;
+    snprintf(VKEYS[VBAD], sizeof VKEYS[0], "%s", key); snprintf(VMSGS[VBAD], sizeof VMSGS[0], "%s", msg); VBAD++;
+}
+#define BADV(keyfmt, ...) do { char msg_[600]; snprintf(msg_, sizeof msg_, __VA_ARGS__); badv_add(keyfmt, msg_); } while (0)
 
 static void reset_all(struct mstate *m) {
     for (int i = 0; i < NSLOT_MAX; i++) SLOT[i] = NULL;
@@ -151,6 +161,7 @@ static void apply(const struct op *o, struct mstate *m) {
         ref_crypt(&m->s[o->a], mask);
         static const uint8_t SALT[16] = { 'P','O','L','Y','S','E','E','D',' ','m','a','s','k',0,0xFF,0xFF };
         if (strcmp(copy, pw)) { BADV("c14:password-modified", "crypt modified its password argument"); }
+        if (E.n_kdf != 1 || E.kdf.table != m->table) { snprintf(k, sizeof k, "c18:kdf-source:%s", o->name); BADV(k, "%s: the key-derivation function of the table in force (table %c) was called %s (calls: %lu, table of the call: %c)", o->name, 'A' + m->table, E.n_kdf == 1 ? "but another table's function ran" : "not exactly once", E.n_kdf, 'A' + E.kdf.table); }
         if (E.n_kdf != 1 || E.kdf.pwlen != nl || memcmp(E.kdf.pw, nf, nl) || E.kdf.saltlen != 16 || memcmp(E.kdf.salt, SALT, 16) || E.kdf.iters != 10000 || E.kdf.keylen != 32) {
             snprintf(k, sizeof k, "c12:kdf-args:%s", o->name); BADV(k, "%s: KDF calls=%lu pwlen=%zu (expected %zu) saltlen=%zu iters=%llu keylen=%zu or bytes differ", o->name, E.n_kdf, E.kdf.pwlen, nl, E.kdf.saltlen, (unsigned long long)E.kdf.iters, E.kdf.keylen); }
     } break;
@@ -350,8 +361,8 @@ static void expand_worker(const uint32_t *front, uint32_t nf, int w, int W, int 
             int known = ht_find(key) >= 0;
             if (!known) { uint32_t i = (uint32_t)(key >> 7) & (lcap - 1); while (lset[i] && lset[i] != key) i = (i + 1) & (lcap - 1); if (lset[i] == key) known = 1; else lset[i] = key; }
             if (!known && !VBAD) { battery(&m); S->battery_runs++; }
-            if (VBAD) { int dup = 0; for (int j = 0; j < S->nviol; j++) if (!strcmp(S->v[j].key, VKEY)) dup = 1;
-                if (!dup && S->nviol < 40) { struct viol *v = &S->v[S->nviol++]; snprintf(v->key, sizeof v->key, "%s", VKEY); hist_str(ops, n, oi, v->replay, sizeof v->replay); char hn[400]; hist_names(ops, n, oi, hn, sizeof hn); snprintf(v->msg, sizeof v->msg, "%.250s  [history: %.300s]", VMSG, hn); }
+            if (VBAD) { for (int q = 0; q < VBAD; q++) { int dup = 0; for (int j = 0; j < S->nviol; j++) if (!strcmp(S->v[j].key, VKEYS[q])) dup = 1;
+                if (!dup && S->nviol < 40) { struct viol *v = &S->v[S->nviol++]; snprintf(v->key, sizeof v->key, "%s", VKEYS[q]); hist_str(ops, n, oi, v->replay, sizeof v->replay); char hn[400]; hist_names(ops, n, oi, hn, sizeof hn); snprintf(v->msg, sizeof v->msg, "%.250s  [history: %.300s]", VMSGS[q], hn); } }
                 continue; }       /* do not explore beyond a violating transition */
             if (!known) { if (nout == 65536) { if (write(fd, out, sizeof(struct rec) * nout) < 0) _exit(5); nout = 0; } out[nout++] = (struct rec){ id, (uint16_t)oi, 0, key }; }
         }
@@ -440,7 +451,7 @@ int main(int argc, char **argv) {
             reset_all(&m); VBAD = 0;
             for (int i = 0; i < n; i++) { apply(&OPS[ops[i]], &m); if (rep == 0) printf("%2d. %-60s -> status %d%s\n", i + 1, OPS[ops[i]].name, LAST_STATUS, VBAD ? "   <== VIOLATION" : ""); if (VBAD) break; }
             if (!VBAD) battery(&m);
-            if (VBAD) { bad = 1; if (rep == 0) printf("REPRODUCED %s: %s\n", VKEY, VMSG); }
+            if (VBAD) { bad = 1; if (rep == 0) for (int q = 0; q < VBAD; q++) printf("REPRODUCED %s: %s\n", VKEYS[q], VMSGS[q]); }
         }
         return bad;
     }
